@@ -11,13 +11,19 @@ package dispatcher
 
 //@ func (*UpgradeAwareHandler).ServeHTTP props C04, C05
 //@   trusted "ghost definition: forwarded counts the requests handed to the proxy handler"
-//@   modifies forwarded, fwdlocation, fwdtransport, *
+//@   modifies forwarded, fwdlocation, fwdtransport, fwdpath, fwdrawpath, fwdscheme, fwdhost, *
 //@   ensures forwarded == old(forwarded) + 1 && fwdlocation == old(h.Location) && fwdtransport == old(h.Transport)
+//@   ensures old(h.Location) != nil ==> fwdpath == old(h.Location.Path) && fwdrawpath == old(h.Location.RawPath) && fwdscheme == old(h.Location.Scheme) && fwdhost == old(h.Location.Host)
+
+//@ func NewUpgradeAwareHandler props C04, C03
+//@   modifies nothing
+//@   ensures [wired] result != nil && fresh(result) && result.UpgradeAwareHandler != nil && result.Location == location && result.Transport == transport
 
 //@ func (*dispatcher).ServeHTTP props C04, C05
 //@   requires [wf] req != nil && req.URL != nil
 //@   modifies *
 //@   ensures [exactly_one] responded + forwarded == old(responded) + old(forwarded) + 1
+//@   ensures [path_faithful] forwarded > old(forwarded) ==> fwdpath == old(req.URL.Path) && fwdrawpath == old(req.URL.RawPath)
 //@   ensures [held_balanced] forall g ref :: {held[g]} held[g] == old(held[g])
 //@   ensures [rate_limited_429] acqfailed > old(acqfailed) ==> responded == old(responded) + 1 && forwarded == old(forwarded) && lastcode == 429
 //@   ensures [no_endpoint_503] popfailed > old(popfailed) ==> responded == old(responded) + 1 && forwarded == old(forwarded) && lastcode == 503
